@@ -65,7 +65,7 @@ def main():
             continue
         for r in a[k]:
             n += 1
-            if a[k][r] != b[k].get(r):
+            if a[k][r].split(':')[0] != str(b[k].get(r)).split(':')[0]:
                 bad.append((k, r))
     rep = {'props': props, 'seeds': len(seeds), 'runs_per_seed_and_mode': args.runs,
            'run_digests_compared': n, 'mismatches': len(bad), 'first_mismatches': bad[:10],
